@@ -36,6 +36,7 @@ type State struct {
 	held    []*lockRef
 	dead    bool
 	oldOverride map[string]*Term // lock-time values of guarded heap classes (for old())
+	openFacts   []*Term          // facts mentioning bound variables (collected while evaluating a quantifier body)
 	// ghost bookkeeping
 	callCount map[string]int
 }
@@ -70,6 +71,11 @@ func (s *State) assume(ts ...*Term) {
 	for _, t := range ts {
 		for _, c := range conjuncts(t) {
 			if c.isTrue() || s.pcSet[c.id] {
+				continue
+			}
+			if len(c.open) > 0 {
+				// mentions a bound variable: only meaningful under its quantifier
+				s.openFacts = append(s.openFacts, c)
 				continue
 			}
 			if c.isFalse() {
